@@ -302,7 +302,12 @@ impl ClientState {
             };
             // ~ sync the partitions vector with the new information
             for partition in t.partitions {
-                let tp = &mut tps[partition.id as usize];
+                // ~ partition ids are expected to be 0..n-1; ignore
+                // anything else instead of trusting the remote side
+                let tp = match usize::try_from(partition.id).ok().and_then(|i| tps.get_mut(i)) {
+                    Some(tp) => tp,
+                    None => continue,
+                };
                 if let Some(bref) = brokers.get(&partition.leader) {
                     tp.broker.set(*bref);
                 } else {
